@@ -79,15 +79,18 @@ class Line(GeoBody):
             return False
 
     def __hash__(self):
-        """Return hash of a Line"""
-        return hash(
-            (
-                "Line",
-                round(self.dv[0], get_sig_figures()),
-                round(self.dv[1], get_sig_figures()),
-                round(self.dv[0] * self.sv[1] - self.dv[1] * self.sv[0], get_sig_figures()),
-            )
-        )
+        """Return hash of a Line.
+
+        Equal lines must hash equally, whatever support point, length and
+        sign of the direction vector they were built with: the unit direction
+        and the moment (which does not depend on the support point) are hashed
+        together with their negatives, so that the sign does not matter.
+        """
+        unit = self.dv.normalized()
+        moment = self.sv.cross(unit)
+        forward = hash(("Line", unit, moment))
+        backward = hash(("Line", -unit, -moment))
+        return hash(("Line", forward + backward, forward * backward))
 
     def move(self, v):
         """Return the line that you get when you move self by vector v, self is also moved"""
